@@ -283,10 +283,16 @@ func isSupportedMethod(method string) bool {
 //	"{id:\d+}"
 //	"{id:(?:\d+)}"
 func (r *Route) goodRegexString(n, v string) {
-	pos := strings.IndexByte(v, '(')
+	// Notice: need check each '(' in the regex, not only the first one.
+	for pos := 0; pos < len(v); pos++ {
+		if v[pos] == '\\' { // skip escaped char. eg: "\("
+			pos++
+			continue
+		}
 
-	if pos != -1 && pos < len(v) && v[pos+1] != '?' {
-		goutil.Panicf("invalid path var regex string, dont allow char '('. var: %s, regex: %s", n, v)
+		if v[pos] == '(' && (pos+1 >= len(v) || v[pos+1] != '?') {
+			goutil.Panicf("invalid path var regex string, dont allow char '('. var: %s, regex: %s", n, v)
+		}
 	}
 }
 
